@@ -40,7 +40,7 @@ var checkSpecs = map[string]*checkSpec{
 		stubs: commonStubs,
 		bounds: map[string]string{
 			"quick":    "W1/W4 flush timers from 3 sender shapes, cc on and off; W2 Input of an arbitrary PUSH (symbolic sn incl. duplicates and numbers below rcv_nxt) from 5 receive shapes, and flush with 1..3 owed acks; W5 Check/Update at an arbitrary clock from 3 shapes; W3 is the nothing-deliverable-stuck assertion of the C04 Input/Recv steps; bounded liveness: the C01 scenario asserts that the backlog drains within 40 rounds after at most 4 (thorough 6) faulty datagrams",
-			"thorough": "same",
+			"thorough": "same lemmas; W2 from the full product of receive-side shapes (delivery queue, reorder buffer, owed acks 0..2 each) over an empty and a one-segment send side; the cross-listed scenarios run at their quick bounds",
 		},
 		outside: "the scheduler's own timing (C17); fault patterns longer than the scenario bound",
 	},
